@@ -1,5 +1,6 @@
 import FitProofs.DecodeAccepts
 import FitProofs.MsgRoundtrip
+import FitProofs.TypedFile
 /-
   C06 at file level: what `Decode` returns on the bytes `Encode` wrote.  The record machine, run
   on the blocks of `encode_wellformed`, hands exactly the File's messages — in the encoder's order —
@@ -243,7 +244,11 @@ theorem All2.imp {α β} {R S : α → β → Prop} {as : List α} {bs : List β
     round-trips, and every field left invalid holds the constructor's invalid value -/
 structure MsgDom (P : Profile) (arch : Endian) (pm : PMsg) (m : Msg) (W : PField → Prop) : Prop where
   rt : ∀ pf ∈ pm.fields, W pf → ∀ k v, pm.layout[pf.sindex]? = some k → m.vals[pf.sindex]? = some v →
-    ∀ fs, FieldRT P (defOf arch m.num fs) pf k v
+    isInvalidVal pm pf.sindex v = false → ∀ fs, FieldRT P (defOf arch m.num fs) pf k v
+  /-- a field the definition carries although this message leaves it invalid (it is valid in another
+      message of the group): its invalid value, written as a filler, is read back as "nothing to store" -/
+  filler : ∀ pf ∈ pm.fields, W pf → ∀ k v, pm.layout[pf.sindex]? = some k → m.vals[pf.sindex]? = some v →
+    isInvalidVal pm pf.sindex v = true → ∀ fs, FieldRTI P (defOf arch m.num fs) pf k v v
   inv : ∀ i v, m.vals[i]? = some v → isInvalidVal pm i v = true → pm.invalid[i]? = some v
 
 /-- is the field valid in this message? -/
@@ -273,7 +278,7 @@ theorem isMsgs_one (P : Profile) (hwf : ProfileWF P = true) (arch : Endian) (m :
   have hknpm : pm.known = true := by
     unfold Profile.known at hkn; rw [hpm] at hkn; exact hkn
   obtain ⟨fs, parts, hbs, hmem, hfit, hsmall, hstep⟩ := message_roundtrip P hwf arch m bs pm hpm hknpm h
-    (fun pf hp k v hk hv hiv fs => hd.rt pf hp (by unfold validIn; rw [getD_of_getElem? _ _ _ _ hv]; exact hiv) k v hk hv fs)
+    (fun pf hp k v hk hv hiv fs => hd.rt pf hp (by unfold validIn; rw [getD_of_getElem? _ _ _ _ hv]; exact hiv) k v hk hv hiv fs)
     hd.inv
   refine ⟨[⟨defOf arch m.num fs, [parts], [m]⟩], ?_, ?_, rfl⟩
   · rw [hbs]; simp [blockItems]
@@ -312,6 +317,29 @@ theorem mapM_some_fwd {α β} (f : α → Option β) (l : List α) (r : List β)
           obtain ⟨y, hy, hfx⟩ := ih bs hr x hx'
           exact ⟨y, List.mem_cons_of_mem _ hy, hfx⟩
 
+theorem sortedS_pairwise (l : List PField) (h : SortedS l) : l.Pairwise (fun a b => a.sindex < b.sindex) := by
+  induction l with
+  | nil => exact List.Pairwise.nil
+  | cons x xs ih =>
+    have ht := ih h.tail
+    rw [List.pairwise_cons]
+    refine ⟨?_, ht⟩
+    intro y hy
+    cases xs with
+    | nil => cases hy
+    | cons z zs =>
+      have hxz := h.1
+      cases hy with
+      | head => exact hxz
+      | tail _ hy' =>
+        rw [List.pairwise_cons] at ht
+        exact Nat.lt_trans hxz (ht.1 y hy')
+
+theorem known_pm' (P : Profile) (g : Nat) (pm : PMsg) (hpm : P.msg? g = some pm) (hk : P.known g = true) : pm.known = true := by
+  unfold Profile.known at hk
+  rw [hpm] at hk
+  exact hk
+
 /-- **a group of messages round-trips**: under the union definition, the field loop rebuilds every
     member exactly -/
 theorem isMsgs_group (P : Profile) (hwf : ProfileWF P = true) (arch : Endian) (m0 : Msg) (rest : List Msg) (pm : PMsg)
@@ -346,6 +374,7 @@ theorem isMsgs_group (P : Profile) (hwf : ProfileWF P = true) (arch : Endian) (m
         obtain ⟨mx, hmxm, hmx⟩ := mapM_some_all _ _ _ hdefs l hl
         exact ⟨mx, hmxm, ((encodeMesgDef_spec pm mx l hmx).1 pf hpl).2⟩
       have hsmall := group_def_small pm hmw defsl.flatten hflat
+      have hsortedS := foldl_insertField_sorted pm.fields (msgWF_inj pm hmw) defsl.flatten [] hflat (fun x h => by cases h) trivial
       have hcover : ∀ m ∈ m0 :: rest, ∀ i, i < m.vals.length → isInvalidVal pm i (m.vals.getD i (.u 0)) = false →
           ∃ q ∈ defsl.flatten.foldl (fun acc pf => insertField pf acc) [], q.sindex = i := by
         intro m hm i hi hv
@@ -360,7 +389,7 @@ theorem isMsgs_group (P : Profile) (hwf : ProfileWF P = true) (arch : Endian) (m
           · cases h1
         rw [← hpi]
         exact (msgWF_inj pm hmw y hym pf (hflat pf hpflat)).mp hyn
-      generalize hfs : defsl.flatten.foldl (fun acc pf => insertField pf acc) [] = fs at h hsmall hcover
+      generalize hfs : defsl.flatten.foldl (fun acc pf => insertField pf acc) [] = fs at h hsmall hcover hsortedS
       cases hc : concatE ((m0 :: rest).map fun m => mesgBytes arch pm m fs) with
       | error e => rw [hc] at h; cases h
       | ok b =>
@@ -399,16 +428,31 @@ theorem isMsgs_group (P : Profile) (hwf : ProfileWF P = true) (arch : Endian) (m
               right
               simp only [List.any_eq_true, decide_eq_true_eq]
               exact ⟨m, hm, hv⟩
+          have hinvlen : pm'.invalid.length = pm'.layout.length := (msgWF_known pm' hmw (known_pm' P m0.num pm' hpm hkn)).2.2.1
           have hrt' : ∀ pf ∈ fs, ∀ k v, pm'.layout[pf.sindex]? = some k → m.vals[pf.sindex]? = some v →
-              FieldRT P (defOf arch m0.num fs) pf k v := by
+              FieldRTI P (defOf arch m0.num fs) pf k v (pm'.invalid.getD pf.sindex (.u 0)) := by
             intro pf hp k v hk hv
-            have := (hd m hm).rt pf (hmem pf hp) (hvalid pf (hmemflat pf hp)) k v hk hv fs
-            rw [hmn] at this
-            exact this
+            cases hiv : isInvalidVal pm' pf.sindex v with
+            | false =>
+              have := (hd m hm).rt pf (hmem pf hp) (hvalid pf (hmemflat pf hp)) k v hk hv hiv fs
+              rw [hmn] at this
+              exact this.toI _
+            | true =>
+              have := (hd m hm).filler pf (hmem pf hp) (hvalid pf (hmemflat pf hp)) k v hk hv hiv fs
+              rw [hmn] at this
+              have hinv := (hd m hm).inv pf.sindex v hv hiv
+              rw [getD_of_getElem? _ _ _ _ hinv]
+              exact this
           have hgf : ∀ pf ∈ fs, P.getField (defOf arch m0.num fs).global pf.num = some pf :=
             fun pf hp => getField_of_mem P m0.num pm' hpm hmw pf (hmem pf hp) hkn
-          obtain ⟨msg', st', h1, h2, h3, h4, h5⟩ := stepFields_rebuilds P (defOf arch m0.num fs) pm' m fs parts hparts hrt' hgf
-            ⟨m0.num, pm'.invalid⟩ st hvl.symm
+          have hinit : ∀ pf ∈ fs, (⟨m0.num, pm'.invalid⟩ : Msg).vals[pf.sindex]? = some (pm'.invalid.getD pf.sindex (.u 0)) := by
+            intro pf hp
+            obtain ⟨k, hk, _⟩ := (fieldWF_facts pm' pf (hfw pf hp)).slot
+            have hlt : pf.sindex < pm'.invalid.length := by rw [hinvlen]; exact (List.getElem?_eq_some_iff.mp hk).1
+            simp only [List.getD_eq_getElem?_getD, List.getElem?_eq_getElem hlt, Option.getD_some]
+          obtain ⟨msg', st', h1, h2, h3, h4, h5⟩ := stepFields_rebuildsI P (defOf arch m0.num fs) pm' m fs parts
+            (fun pf => pm'.invalid.getD pf.sindex (.u 0)) (sortedS_pairwise fs hsortedS) hparts hrt' hgf
+            ⟨m0.num, pm'.invalid⟩ st hvl.symm hinit
           refine ⟨st', ?_⟩
           have hm' : msg' = m := by
             cases msg' with
@@ -486,7 +530,7 @@ def OneDom (P : Profile) (arch : Endian) (m : Msg) : Prop :=
 
 theorem MsgDom.mono {P : Profile} {arch : Endian} {pm : PMsg} {m : Msg} {W W' : PField → Prop}
     (h : MsgDom P arch pm m W) (hw : ∀ pf, W' pf → W pf) : MsgDom P arch pm m W' :=
-  ⟨fun pf hp hwp => h.rt pf hp (hw pf hwp), h.inv⟩
+  ⟨fun pf hp hwp => h.rt pf hp (hw pf hwp), fun pf hp hwp => h.filler pf hp (hw pf hwp), h.inv⟩
 
 theorem SlotDom.head {P : Profile} {arch : Endian} {m : Msg} {rest : List Msg} (h : SlotDom P arch (m :: rest)) :
     OneDom P arch m := by
@@ -653,7 +697,7 @@ theorem decode_encode_file (P : Profile) (hwf : ProfileWF P = true) (arch : Endi
               have hd0 := hdom.fid.2 pm0 hpm0
               obtain ⟨fs, parts0, st1, st2, hb0, hgood0, hs1, hs2, hf2, hd2, hg2, _⟩ :=
                 fileid_block_ok P hwf arch f.fileId b0 pm0 hpm0 hdom.fid.1 hdom.fidNum hfid
-                  (fun pf hp k v hk hv hiv fs => hd0.rt pf hp (by unfold validIn; rw [getD_of_getElem? _ _ _ _ hv]; exact hiv) k v hk hv fs)
+                  (fun pf hp k v hk hv hiv fs => hd0.rt pf hp (by unfold validIn; rw [getD_of_getElem? _ _ _ _ hv]; exact hiv) k v hk hv hiv fs)
                   hd0.inv
                   (recState0 P g f.hdr.proto f.hdr.profile (b0 ++ br).length)
                   { hdr := (afterHeader g f.hdr.proto f.hdr.profile (b0 ++ br).length).hdr, fileId := zeroFileId P }
